@@ -8,6 +8,11 @@ BASELINE = ("cd /repo && cargo nextest run --workspace --no-fail-fast --tool-con
 
 # id -> (engine, category, technique, level text, level note, design ref)
 CHECKS = {
+ "C20": ("mc-reg", "model_checking",
+         "exhaustive enumeration of key lists x download completion orders on the real resolver against an in-process Warg registry, completion order enforced through guarded per-task gates (controlled scheduler)",
+         "An in-process Warg server holds test:a {1.0.0, 1.1.0, 2.0.0}, test:b {0.1.0}, test:c {1.0.0} with distinct content per release (100 B .. 200 KiB). For every ordered list of distinct keys of length 1-2 (quick: plus a quarter of the length-3 lists that repeat the name test:a; thorough: all length-3 lists) over a 9-key universe (versioned and unversioned references to one package, a missing version, a missing package) and EVERY permutation of download completion order, the real RegistryPackageResolver runs over the real HTTP stack while the H2 gates release one download at a time in the chosen order (the consumed order is confirmed from the resolver's progress callbacks); plus one free-running execution per list. The result must have exactly the requested keys, each with the content published under that name and version (latest when unversioned); a missing package/version must be reported with the corresponding error naming the key and carrying that key's span; the result must be the same for every completion order.",
+         "The only schedule-dependent observable of resolve() is the order in which finished downloads are consumed; that order is enumerated exhaustively per list. Scheduling inside the HTTP client/server is not enumerated; overlapping downloads are exercised only by the free-running executions.",
+         "DESIGN.md §5 C20, §4 E7"),
  "C04": ("mc-sem", "translation_validation",
          "exhaustive program enumeration evaluated by a reference evaluator written from LANGUAGE.md and by wac; E2 provenance equality on the encoded bytes",
          "Programs = a fixed prefix binding every kind of value the name-inference rules distinguish (imports by path / inline type / `as`, an instance from `new`, accesses, named accesses, a let alias) followed by one `new` whose argument list is the product of per-import supply modes (omitted, inferred via each bound name, named by identifier, named by string, mismatching) x spreads x `...` x argument order, every export form (plain, `as` id / string, spread, after a conflicting export, nested, last-segment access), 21 single-fault variants and nested `new`; ~15k programs quick, ~40k thorough. Each program's outcome class must equal the reference evaluator's (the diagnostic the reference names, or a composition), and for compositions the independent E2 reading of the bytes (instantiations with per-name argument provenance, exports, explicit imports) must equal the evaluator's.",
@@ -125,6 +130,8 @@ def main():
              "kind_free_text": "grammar-derivation enumeration, reference recogniser/evaluator, fault enumeration over the real parser/resolver"},
             {"name": "mc-sem", "path": "harness/mc-sem", "serves_properties": [p for p in props if p in CHECKS and CHECKS[p][0] == "mc-sem"],
              "kind_free_text": "document-level enumeration: package discovery, reproducibility under enumerated hash seeds, WAC evaluator, WIT differential, targets"},
+            {"name": "mc-reg", "path": "harness/mc-reg", "serves_properties": [p for p in props if p in CHECKS and CHECKS[p][0] == "mc-reg"],
+             "kind_free_text": "completion-order explorer for the registry resolver over an in-process Warg server (H2 gates)"},
             {"name": "mc-env", "path": "harness/mc-env", "serves_properties": [p for p in props if p in CHECKS and CHECKS[p][0] == "mc-env"],
              "kind_free_text": "environment enumeration: file-system layouts, CLI flag vectors, download completion orders"},
         ],
